@@ -138,7 +138,7 @@ pub fn gen_sized(rng: &mut Rng, small_max: u64, allow_big: bool) -> Case {
     let mut tris = vec![];
     let visible_bias = rng.chance(4, 5);
     for k in 0..ntri {
-        let kind = rng.below(10);
+        let kind = rng.below(13);
         for _ in 0..3 {
             let p = if visible_bias && kind < 7 {
                 // inside (or near) the view volume
@@ -161,6 +161,28 @@ pub fn gen_sized(rng: &mut Rng, small_max: u64, allow_big: bool) -> Case {
                 let s = rng.f32_in(-1.0, 2.0);
                 for c in 0..3 {
                     verts[b + 2].0[c] = verts[b].0[c] + s * (verts[b + 1].0[c] - verts[b].0[c]);
+                }
+            }
+            10 => {
+                // two coincident vertices and an apex that projects exactly
+                // onto the viewport centre (a pixel centre for odd sizes):
+                // a zero-width triangle that may still emit a fragment
+                verts[b + 1].0 = verts[b].0;
+                verts[b + 2].0 = [0.0, 0.0, rng.f32_in(near, far)];
+            }
+            11 | 12 => {
+                // slivers hugging a pixel-centre row/column from just below:
+                // y (or x) a few ulps or a subnormal off the optical axis,
+                // which a one-row viewport maps to 0.49999997
+                let eps = rng.pick(&[-1e-45f32, -1e-30, -1e-10, -6e-8, -1.2e-7, 1e-45, 6e-8]);
+                let axis = rng.usize(2);
+                let j = b + rng.usize(3);
+                verts[j].0[axis] = eps * verts[j].0[2].abs().max(near);
+                let j2 = b + rng.usize(3);
+                let nn = rng.ulp_nudge(near);
+                verts[j2].0[2] = rng.pick(&[near, nn, far]);
+                if kind == 12 {
+                    verts[b + rng.usize(3)].0[2] = -rng.f32_in(0.5, 2.0) * near; // behind the eye
                 }
             }
             9 => {
@@ -329,9 +351,37 @@ pub fn run(cfg: &Cfg, rep: &mut Report) {
         rep.pin("F1.render_nan_depth", r);
     }
 
+    {
+        let fb = f32::from_bits;
+        // F14: a scanline past the end of a 2e-7 px tall sliver in a one-row viewport
+        let c = Case {
+            bw: 16, bh: 1, win: (0, 0, 16, 1), vp: (0, 0, 16, 1), tk: Tk::FbOwned, ortho: false, near: 1.0, far: 10.0, focal: 0.5, aspect: 16.0,
+            obox: ([0.0; 3], [1.0; 3]),
+            verts: vec![([0.0, fb(0x4028e34a), -1.0], 0.0), ([fb(0x3d4c9ff4), fb(0x80000001), 1.0], 1.0), ([fb(0x4026dd98), fb(0xbecd1f68), fb(0x3fa6dd98)], 0.5)],
+            tris: vec![[0, 1, 2]], cull: None, sort: None, test: Some(Ordering::Greater), cw: true, dw: false, discard: false,
+        };
+        let mut r2 = Report::new();
+        run_case(&mut r2, &c);
+        rep.pin("F14.scanline_past_sliver_end", if r2.n_violations() == 0 { Ok(()) } else { Err(r2.violations.values().next().map(|v| v.firsts[0].detail.clone()).unwrap_or_default()) });
+        // F15: zero-width degenerate triangle whose apex sits on a pixel centre
+        let p = [fb(0x42445f7b), fb(0xc2b50352), fb(0xc28d6c23)];
+        let c = Case {
+            bw: 18, bh: 14, win: (0, 0, 18, 14), vp: (11, 7, 16, 10), tk: Tk::FbOwned, ortho: false, near: 10.0, far: 20.0, focal: 10.0, aspect: fb(0x3fd55555),
+            obox: ([0.0; 3], [1.0; 3]),
+            verts: vec![(p, 0.0), (p, 1.0), ([0.0, 0.0, fb(0x418f5b72)], 0.5)],
+            tris: vec![[0, 1, 2]], cull: None, sort: None, test: None, cw: false, dw: true, discard: false,
+        };
+        let mut r2 = Report::new();
+        run_case(&mut r2, &c);
+        rep.pin("F15.zero_width_triangle_nan", if r2.n_violations() == 0 { Ok(()) } else { Err(r2.violations.values().next().map(|v| v.firsts[0].detail.clone()).unwrap_or_default()) });
+    }
+
     let n = cfg.n(600_000, 60_000_000);
     rep.run_stream(cfg, 0, "scenes", n, |rng, i, rep| {
         let c = gen(rng);
+        if cfg.only.is_some() {
+            explain(&c);
+        }
         let before = rep.classes.get("scenes_with_fragments").copied().unwrap_or(0);
         run_case(rep, &c);
         let nontrivial = rep.classes.get("scenes_with_fragments").copied().unwrap_or(0) > before;
@@ -355,4 +405,47 @@ pub fn run(cfg: &Cfg, rep: &mut Report) {
     rep.floor("scenes_where_clipping_split_triangles", n / 100);
     rep.floor("viewport.single_row_or_column", n / 50);
     rep.floor("buffer.one_pixel_wide_or_high", n / 100);
+}
+
+/// Replay aid: renders each triangle of a case alone and prints the
+/// geometry of those that violate on their own.
+pub fn explain(c: &Case) {
+    let proj = c.proj();
+    let (l, t, r, b) = c.vp;
+    for (k, tri) in c.tris.iter().enumerate() {
+        let mut one = c.clone();
+        one.tris = vec![*tri];
+        let mut r2 = Report::new();
+        run_case(&mut r2, &one);
+        if r2.n_violations() > 0 {
+            println!("  triangle {k} {tri:?} violates alone: {}", r2.violations.values().next().unwrap().firsts[0].detail);
+            for &vi in tri {
+                let p = c.verts[vi].0;
+                let cl = proj.apply(&re::math::point::pt3::<f32, re::render::View>(p[0], p[1], p[2])).0;
+                let (hw, hh) = ((r - l) as f64 / 2.0, (b - t) as f64 / 2.0);
+                let sx = l as f64 + hw * (1.0 + cl[0] as f64 / cl[3] as f64);
+                let sy = t as f64 + hh * (1.0 + cl[1] as f64 / cl[3] as f64);
+                println!("    view {} clip {} screen ({sx:.6}, {sy:.6}) 1/w {}", f32v(&p), f32v(&cl), 1.0 / cl[3]);
+            }
+            // the real clipper's output for this triangle, on screen
+            use re::render::clip::{view_frustum, ClipVert};
+            let cv = re::geom::Tri(std::array::from_fn::<_, 3, _>(|i| {
+                let p = c.verts[tri[i]].0;
+                ClipVert::new(re::geom::vertex(proj.apply(&re::math::point::pt3::<f32, re::render::View>(p[0], p[1], p[2])), 0.0f32))
+            }));
+            let mut out = vec![];
+            view_frustum::clip(&[cv][..], &mut out);
+            for (j, re::geom::Tri(vs)) in out.iter().enumerate() {
+                let s: Vec<String> = vs
+                    .iter()
+                    .map(|v| {
+                        let cl = v.pos.0;
+                        let (hw, hh) = ((r - l) as f32 / 2.0, (b - t) as f32 / 2.0);
+                        format!("clip {:?} -> screen ({}, {})", cl, l as f32 + hw + hw * (cl[0] / cl[3]), t as f32 + hh + hh * (cl[1] / cl[3]))
+                    })
+                    .collect();
+                println!("    clipped tri {j}: {}", s.join(" | "));
+            }
+        }
+    }
 }
